@@ -54,10 +54,14 @@ func verdictSchedules(k int) [][]vEvent {
 	return out
 }
 
+var vsCount int
+
 // runVerdictSchedule replays one schedule with a gated backend; returns the
 // recorded trace (reply events carry the verdict the server actually reported).
 func runVerdictSchedule(sched []vEvent, lmtp bool, abortWith string) ([]vEvent, string, error) {
-	srv := drv.Start(drv.Cfg{LMTP: lmtp, MaxLine: 2000})
+	// (LMTP: the plain backend and the per-recipient backend alternate)
+	vsCount++
+	srv := drv.Start(drv.Cfg{LMTP: lmtp, LMTPBackend: lmtp && vsCount%2 == 0, MaxLine: 2000})
 	defer srv.Stop()
 	cn, err := srv.Dial()
 	if err != nil {
@@ -204,17 +208,41 @@ func verdictFamily(run *evid.Run) (states int64, nsched int) {
 				abortWith := []string{"rset", "greet"}[si%2]
 				recd, msg, err := runVerdictSchedule(s, lmtp, abortWith)
 				nsched++
+				// nothing of a finished schedule may be left behind: the server is stopped,
+				// every gate open (C20: no goroutine outlives its connection)
+				if err == nil {
+					left := ""
+					for dl := time.Now().Add(500 * time.Millisecond); ; {
+						left = drv.GoroutineDump("go-smtp.(*Conn).handleBdat")
+						if left == "" || time.Now().After(dl) {
+							break
+						}
+						time.Sleep(2 * time.Millisecond)
+					}
+					if left != "" {
+						lp := vprop(run)
+						if run.Prop == "C20" {
+							lp = "C20"
+						}
+						run.Report(evid.Div{Prop: lp, Key: "verdict:goroutine-left-behind", Msg: fmt.Sprintf("schedule %v (lmtp=%v, abort by %s): after the connection and the server have ended a delivery goroutine is still there:\n%s", s, lmtp, abortWith, left),
+							Replay: map[string]interface{}{"engine": "verdict", "schedule": s, "lmtp": lmtp, "abort": abortWith}})
+					}
+				}
 				rp := map[string]interface{}{"engine": "verdict", "schedule": s, "lmtp": lmtp, "abort": abortWith, "recorded": recd}
 				if err != nil {
 					var stuck *drv.StuckError
 					if asStuck(err, &stuck) {
-						run.Report(evid.Div{Prop: "C04", Key: "verdict:hang:" + stuck.Where, Msg: fmt.Sprintf("schedule %v (lmtp=%v, abort by %s): %v", s, lmtp, abortWith, stuck), Replay: rp})
+						hp := vprop(run)
+						if run.Prop == "C20" {
+							hp = "C20"
+						}
+						run.Report(evid.Div{Prop: hp, Key: "verdict:hang:" + stuck.Where, Msg: fmt.Sprintf("schedule %v (lmtp=%v, abort by %s): %v", s, lmtp, abortWith, stuck), Replay: rp})
 						continue
 					}
 					evid.Inconclusive("verdict schedule %v: %v", s, err)
 				}
 				if msg != "" {
-					run.Report(evid.Div{Prop: "C04", Key: "verdict:flow:" + firstWords(msg, 6), Msg: fmt.Sprintf("schedule %v (lmtp=%v, abort by %s): %s", s, lmtp, abortWith, msg), Replay: rp})
+					run.Report(evid.Div{Prop: vprop(run), Key: "verdict:flow:" + firstWords(msg, 6), Msg: fmt.Sprintf("schedule %v (lmtp=%v, abort by %s): %s", s, lmtp, abortWith, msg), Replay: rp})
 					continue
 				}
 				starts = append(starts, len(all)+1)
@@ -252,7 +280,7 @@ func verdictFamily(run *evid.Run) (states int64, nsched int) {
 			}
 		}
 		ev := all[bad-1]
-		run.Report(evid.Div{Prop: "C04", Key: fmt.Sprintf("verdict:attribution:%s", ev.Ev), Msg: fmt.Sprintf("gated schedule %v: recorded event %+v is not what Verdict.tla allows (%s): the final reply of a transfer must carry that transfer's own verdict", scheds[wi], ev, res.Violation),
+		run.Report(evid.Div{Prop: vprop(run), Key: fmt.Sprintf("verdict:attribution:%s", ev.Ev), Msg: fmt.Sprintf("gated schedule %v: recorded event %+v is not what Verdict.tla allows (%s): the final reply of a transfer must carry that transfer's own verdict", scheds[wi], ev, res.Violation),
 			Replay: map[string]interface{}{"engine": "verdict", "schedule": scheds[wi], "event": ev}})
 	}
 	return mc.Distinct, nsched
@@ -419,4 +447,14 @@ func lateStartFamily(run *evid.Run) int {
 		}
 	}
 	return n
+}
+
+// vprop: the stale-verdict family speaks for C04 (a reply carries its own
+// message's verdict) and, in LMTP mode, for C13 (each recipient's own status);
+// it reports under the property whose check is running it.
+func vprop(run *evid.Run) string {
+	if run.Prop == "C13" {
+		return "C13"
+	}
+	return "C04" // (when C20 runs the family only hangs and left-behind goroutines are its business)
 }
